@@ -374,6 +374,80 @@ static void liveflipr(void) {
   free(mut);
 }
 
+/* ---- Observe over time: liveobs <secret> <salt> <idctx> <cid> <sid> <type> <token> <cseq> <sseq> <n>
+ * an observable resource "obs"; the client registers, the server changes the resource n times.
+ * Printed: every datagram of the server that carries the OSCORE option (in order) and what the
+ * client's response handler saw. */
+static int obs_counter = 0;
+
+static void on_obs_get(coap_resource_t *r, coap_session_t *s, const coap_pdu_t *req,
+                       const coap_string_t *q, coap_pdu_t *resp) {
+  char buf[16];
+  (void)r; (void)s; (void)req; (void)q;
+  n_handler++;
+  coap_pdu_set_code(resp, COAP_RESPONSE_CODE_CONTENT);
+  snprintf(buf, sizeof(buf), "v%d", obs_counter);
+  coap_add_data(resp, strlen(buf), (const uint8_t *)buf);
+}
+
+static void liveobs(void) {
+  secspec_t s = { vtok[1], vtok[2], vtok[3], vtok[4], vtok[5] };
+  int type = atoi(vtok[6]);
+  const char *token = vtok[7];
+  uint64_t cseq = strtoull(vtok[8], NULL, 10), sseq = strtoull(vtok[9], NULL, 10);
+  int n = atoi(vtok[10]);
+  coap_oscore_conf_t *oc;
+  coap_resource_t *r;
+  coap_pdu_t *pdu;
+  size_t tl, mark, shown = 0;
+  uint8_t *tb;
+  world_down();
+  hl_reset();
+  obs_counter = 0;
+  vn_prng_seed(cseq * 31 + sseq + 11);
+  srv = coap_new_context(NULL);
+  srv_ep = srv ? vn_new_server_ep(srv) : NULL;
+  oc = make_conf(&s, s.sid, s.cid, sseq);
+  if (!srv_ep || !oc || !coap_context_oscore_server(srv, oc)) { puts("NOCTX"); return; }
+  r = coap_resource_init(coap_make_str_const("obs"), COAP_RESOURCE_FLAGS_OSCORE_ONLY);
+  coap_register_request_handler(r, COAP_REQUEST_GET, on_obs_get);
+  coap_resource_set_get_observable(r, 1);
+  coap_add_resource(srv, r);
+  if (!client_up(&s, cseq)) { puts("NOCTX"); return; }
+  pdu = coap_pdu_init((coap_pdu_type_t)type, COAP_REQUEST_CODE_GET, 77,
+                      coap_session_max_pdu_size(cli_sess));
+  tb = bytes_of_tok(token, &tl);
+  coap_add_token(pdu, tl, tb);
+  free(tb);
+  coap_add_option(pdu, COAP_OPTION_OBSERVE, 0, NULL);
+  coap_add_option(pdu, COAP_OPTION_URI_PATH, 3, (const uint8_t *)"obs");
+  mark = vn_nout;
+  if (coap_send(cli_sess, pdu) == COAP_INVALID_MID) { puts("p1=NONE"); return; }
+  fputs("dgrams=", stdout);
+  for (int step = 0; step <= n; step++) {
+    if (step > 0) {
+      obs_counter++;
+      coap_resource_notify_observers(r, NULL);
+      vn_advance(1000);
+      vn_prepare(srv);
+    }
+    /* deliver everything in flight, both directions, until quiet */
+    for (int round = 0; round < 6 && mark < vn_nout; round++) {
+      size_t end = vn_nout;
+      for (size_t i = mark; i < end; i++) {
+        if (vn_out[i].ctx == srv && vn_out[i].len > 4 && vn_out[i].data[1] != 0) {
+          printf("%s", shown++ ? "," : "");
+          show_full(stdout, vn_out[i].data, vn_out[i].len);
+        }
+        vn_route(i);
+      }
+      mark = end;
+    }
+  }
+  fflush(hl);
+  printf(" app=%s responses=%d\n", hl_len ? hl_buf : "-", n_response);
+}
+
 int main(void) {
   coap_startup();
   coap_set_log_level(getenv("VLOG") ? COAP_LOG_OSCORE : COAP_LOG_EMERG);
@@ -382,6 +456,7 @@ int main(void) {
     if (!strcmp(vtok[0], "live")) live();
     else if (!strcmp(vtok[0], "liveflip") || !strcmp(vtok[0], "liveflipw")) liveflip();
     else if (!strcmp(vtok[0], "liveflipr")) liveflipr();
+    else if (!strcmp(vtok[0], "liveobs")) liveobs();
     else puts("ERROR unknown command");
     fflush(stdout);
   }
